@@ -129,12 +129,18 @@ IntraInSameSub(P) ==
 \* every call target is a function or an extern symbol
 CallTargetsExist(P) ==
   \A c \in JmpRefs(P) : JmpAt(P, c).k = "call" => JmpAt(P, c).t \in SubTids(P) \cup ExternTids(P)
-\* block shape assumed by graph.rs: at most two jumps; of two jumps the first is a conditional
-\* branch and the second an unconditional non-call jump ("conditional calls are not supported")
+\* block shape assumed by graph.rs / documented in blk.rs: at most two jumps; of two jumps the
+\* first is a conditional branch and the second is unconditional and only taken if the condition
+\* is false.  The second may be a jump (Branch, BranchInd, Return) or a call-like instruction
+\* (Call, CallInd, CallOther: a conditionally executed call, e.g. ARM `blne f` = CBRANCH + CALL).
+\* graph.rs builds for a call in second position exactly what it builds for a call that is the
+\* only jump (CallSource / Call / CallReturn linkage resp. ExternCallStub; the untaken
+\* conditional is recorded on Jump edges only), plus the Jump edge of the conditional branch.
+\* Graph(P) below ranges over ALL jumps of a block, so it needs no case for these shapes.
 BlockShapeOK(blk) ==
   /\ Len(blk.jmps) <= 2
   /\ Len(blk.jmps) = 2 => /\ blk.jmps[1].k = "cbranch"
-                          /\ blk.jmps[2].k \in {"branch", "branchind", "return"}
+                          /\ blk.jmps[2].k \in {"branch", "branchind", "return", "call", "callind", "callother"}
 BlockShapes(P) == \A r \in BlkRefs(P) : BlockShapeOK(BlkAt(P, r))
 
 WellFormed(P) == UniqueTids(P) /\ IntraInSameSub(P) /\ CallTargetsExist(P) /\ BlockShapes(P)
